@@ -31,3 +31,4 @@ CFG = dict(
 CFG["fuzz"] = [dict(target="FuzzNext", seconds=90)]
 CFG["technique"] += " + coverage-guided native fuzzing of the Next property in the thorough tier (go test -fuzz over rapid's bit stream)"
 CFG["rule"] += ' Steps around the widths of machine integers (2^31, 2^32, 2^63, 2^64, and 2^64-d / 2^32-d for small d, which bring start+step back into range in an unsigned sum) are drawn in terms and swept exhaustively over every single-term form; each selects the start value only or is refused.'
+CFG["rule"] += ' Names of the field in the step position are a refusal class (rapid + sweep). TestLateLeapYear: starts in the last weeks of leap years 2040-2096 in rule-based zones east and west of Greenwich with sparse schedules (enumerated; a rotating quarter in the quick tier).'
